@@ -1,4 +1,13 @@
 import PetgraphModel.Common
+import PetgraphModel.Driver.C10
+import PetgraphModel.Driver.C06
+import PetgraphModel.Driver.C04
+import PetgraphModel.Driver.C14
+import PetgraphModel.Driver.C18
+import PetgraphModel.Driver.C09
+import PetgraphModel.Driver.C13
+import PetgraphModel.Driver.C12
+import PetgraphModel.Driver.C11
 import PetgraphModel.Driver.C05
 import PetgraphModel.Driver.C20
 import PetgraphModel.Driver.C15
@@ -21,4 +30,13 @@ def main (args : List String) : IO UInt32 := do
   | ["C15"] => driverLoop inp out C15.step {}; return 0
   | ["C20"] => driverLoop inp out C20.step {}; return 0
   | ["C05"] => driverLoop inp out C05.step {}; return 0
+  | ["C11"] => driverLoop inp out C11.step {}; return 0
+  | ["C12"] => driverLoop inp out C12.step {}; return 0
+  | ["C13"] => driverLoop inp out C13.step {}; return 0
+  | ["C09"] => driverLoop inp out C09.step {}; return 0
+  | ["C18"] => driverLoop inp out C18.step {}; return 0
+  | ["C14"] => driverLoop inp out C14.step {}; return 0
+  | ["C04"] => driverLoop inp out C04.step {}; return 0
+  | ["C06"] => driverLoop inp out C06.step {}; return 0
+  | ["C10"] => driverLoop inp out C10.step {}; return 0
   | _ => IO.eprintln "usage: pgmodel <property id>  (protocol lines on stdin)"; return 2
